@@ -4,6 +4,7 @@ import (
 	"bytes"
 	"encoding/json"
 	"fmt"
+	"os"
 	"sort"
 	"strings"
 	"sync"
@@ -167,7 +168,7 @@ func runC03(env *core.Env) {
 		var other []string
 		for k := range st {
 			if strings.HasPrefix(k, ".ergo/") && k != st.LogName() && k != ".ergo/lock" {
-				other = append(other, k)
+				other = append(other, k+"="+core.CanonLog(st[k]))
 			}
 		}
 		sort.Strings(other)
@@ -217,6 +218,9 @@ func runC03(env *core.Env) {
 				return res, core.ObserveW(w, w.Proj), after
 			}
 			r1, o1, after1 := run(s.Store)
+			if os.Getenv("VERIF_DEBUG") != "" && m.Name == "compact" && hasTmp(s.Store) {
+				env.Logf("DEBUG compact on tmp state: tmp=%d log=%d -> after log=%d fail=%q path=%v", len(s.Store[s.Store.LogName()+".tmp"]), len(s.Store.Log()), len(after1.Log()), o1.Fail, s.Path)
+			}
 			r2, o2, _ := run(clean)
 			atomic.AddInt64(&followUps, 2)
 			hist := &c03State{Root: rootOf(s, s.Store), Store: after1, Path: append(append([]string{}, s.Path...), "then `"+m.Req.Shell()+"` runs to completion"), Arts: append(append([]crashStep{}, s.Arts...), crashStep{Req: m.Req, Target: -1, Keep: -1})}
@@ -360,7 +364,7 @@ func runC03(env *core.Env) {
 		"states": len(seen), "transitions": crashStates + tornStates + followUps, "traces_validated_against_impl": crashStates,
 		"samples": samples.list, "exhaustive": exhaustive && notLanded == 0, "crash_depth": maxDepth,
 		"crash_states": crashStates, "torn_states": tornStates, "distinct_states": len(seen), "states_checked": statesChecked,
-		"recovery_commands_run": followUps, "strace_runs": straceRuns, "kill_points_not_landed": notLanded, "outcome_classes": classes.len(),
+		"recovery_commands_run": followUps, "strace_runs": straceRuns, "kill_points_not_landed": notLanded, "outcome_classes": classes.snapshot(),
 		"unconfirmed_candidates": unconfirmed.Load(),
 		"explanation":            "explicit-state search over crash states: from 3 pre-states every command of a 14-command menu is killed (production binary, SIGKILL via strace) on entry to every store-mutating system call, and every log write is additionally cut short at byte offsets {1,2,L/2,L-2,L-1} (thorough: every offset); each distinct state must be readable, show exactly its whole events, keep every earlier event in order, and every menu command must then behave exactly as on the clean store with the same whole events and leave the store readable; damaged states (torn tail / temp file) are crashed again (depth 2; thorough 3)",
 	}, []string{
